@@ -129,7 +129,7 @@ func TestVerifC02C(t *testing.T) {
 				}
 				stat.VerifSetCpuUsage(verifh.Atoi64(kv["cpu"]))
 				var seq, calls, nchk int64
-				chk := make([]int64, n*k+8) // checker events: stamp<<1 | verdict
+				chk := make([]int64, 4*n*k+64) // checker events: stamp<<1 | verdict (room for several questions per Allow)
 				systemOverloadChecker = func(int64) bool {
 					c := atomic.AddInt64(&calls, 1)
 					v := false
